@@ -284,6 +284,9 @@ func c05Fixed() []c05Case {
 	for _, ph := range c05Phases {
 		out = append(out, c05Case{Family: "stall", Phase: ph, NExt: 1, SubShut: []bool{true}, ExtStick: []bool{false}, T: 150})
 	}
+	// the same stalls in an environment that was started after an earlier reset
+	out = append(out, c05Case{Family: "stall", Phase: "e1.register", NExt: 1, SubShut: []bool{true}, ExtStick: []bool{false}, T: 150, Gen2: true},
+		c05Case{Family: "stall", Phase: "rt.firstnext", NExt: 1, SubShut: []bool{false}, ExtStick: []bool{false}, T: 150, Gen2: true})
 	out = append(out, c05Case{Family: "hook", Hook: "fastinvoke.success", T: 150}, c05Case{Family: "hook", Hook: "fastinvoke.success", T: 150, NExt: 1, SubShut: []bool{true}, ExtStick: []bool{false}, Gen2: true},
 		c05Case{Family: "hook", Hook: "invoke.timeoutFired", T: 150}, c05Case{Family: "hook", Hook: "reset.flowsCancelled", T: 150, NExt: 1, SubShut: []bool{true}, ExtStick: []bool{false}})
 	if kit.Thorough() {
